@@ -235,6 +235,8 @@ def regrow_cases(draw, tier):
             "fund": [draw(st.sampled_from([40.0, 100.0, 700.25])) for _ in range(n)],
             "drift": [draw(st.sampled_from([0.0, 0.01, -0.02])) for _ in range(n)],
             "initial": draw(st.integers(1, 2)),
+            # a component registered programmatically BEFORE setup reads the "markets" list (a subclass may do that): it stays one
+            "pre": draw(st.booleans()),
             "adds": draw(st.lists(st.tuples(st.booleans(), st.lists(st.integers(0, n - 1), min_size=1, max_size=3)), min_size=1, max_size=5)),
             "steps": draw(st.integers(1, 4))}
 
@@ -256,9 +258,12 @@ def regrow_check(case):
         sim.fundamentals.add_market(market_id=i, initial=case["fund"][i], drift=case["drift"][i], volatility=0.0)
         mk.append(m)
     idx = IndexMarket(market_id=n, prng=random.Random(9), simulator=sim, name="IDX")
+    pre = [n - 1] if case.get("pre") and case["shares"][n - 1] is not None and n - 1 >= case["initial"] else []
+    for i in pre:
+        idx._add_market(mk[i])
     idx.setup({"tickSize": 1.0, "marketPrice": 100.0, "markets": [m.name for m in mk[:case["initial"]]]})
     sim._add_market(idx)
-    accepted = list(range(case["initial"]))
+    accepted = pre + list(range(case["initial"]))
     refused = grown = 0
     for bulk, ids in case["adds"]:
         if bulk:
